@@ -1176,7 +1176,9 @@ func c02Routing(c *Ctx, F *ssa.Function, getCall *ssa.Call) {
 			_, g1 := hasLabel(g, "NE(", skipRev)
 			_, g2 := hasLabel(g, "F(call:ngo/internal/slices.Contains(", fmt.Sprintf(",const:%q))", rv))
 			cut := fi.edgesMatching(containsEdge(rv, true))
-			for e := range fi.edgesMatching(func(l string, _ *ssa.If, _ bool) bool { return strings.HasPrefix(l, "EQ(") && strings.HasSuffix(l, skipRev) }) {
+			for e := range fi.edgesMatching(func(l string, _ *ssa.If, _ bool) bool {
+				return strings.HasPrefix(l, "EQ(") && strings.HasSuffix(l, skipRev)
+			}) {
 				cut[e] = true
 			}
 			cutInto(fi, revCall.Block(), cut)
